@@ -17,6 +17,32 @@ from .core.loader import AnalysisError, Project
 from .core.report import EVIDENCE_DIR, Report
 
 
+class _Timeout(BaseException):
+    pass
+
+
+def _limits(seconds: int):
+    """a safety net around the evaluator's own budget: wall-clock alarm and an address-space cap for this process (the
+    self-test sub-processes of the thorough tier are separate processes with their own timeouts)"""
+    import resource
+    import signal
+
+    def _alarm(signum, frame):
+        raise _Timeout(f"no result after {seconds} s")
+    try:
+        signal.signal(signal.SIGALRM, _alarm)
+        signal.alarm(seconds)
+    except (ValueError, AttributeError):
+        pass
+    try:
+        soft, hard = resource.getrlimit(resource.RLIMIT_AS)
+        cap = 8 * 1024 ** 3
+        if soft == resource.RLIM_INFINITY or soft > cap:
+            resource.setrlimit(resource.RLIMIT_AS, (cap, hard))
+    except (ValueError, OSError):
+        pass
+
+
 def main(argv=None) -> int:
     ap = argparse.ArgumentParser()
     ap.add_argument("pid")
@@ -37,6 +63,7 @@ def main(argv=None) -> int:
         seed = 0
     rep = Report(pid, args.tier, seed)
     rep.dry = args.dry
+    _limits(600 if args.tier == "thorough" else 240)
     try:
         try:
             mod = importlib.import_module(f"pst.rules.{pid.lower()}")
@@ -97,6 +124,10 @@ def main(argv=None) -> int:
         except Exception:
             print(f"ANALYSIS-ERROR property={pid} {e}")
             return 2
+    except (MemoryError, _Timeout) as e:   # a run that does not end in bounded time / memory decides nothing
+        print(f"ANALYSIS-ERROR property={pid} resource limit: {type(e).__name__} {e}".rstrip())
+        print(f"ANALYSIS-ERROR property={pid} the analysis did not finish within its time / memory budget: no verdict")
+        return 2
     except Exception as e:  # internal error: never looks like a violation
         traceback.print_exc()
         print(f"ANALYSIS-ERROR property={pid} internal error: {type(e).__name__}: {e}")
